@@ -1,7 +1,8 @@
 #!/usr/bin/env python3
 """Determinism self-test: every (profile, seed) is run in several fresh processes, under different GOMAXPROCS
 environment values and with all workers busy; the SHA-256 of the full event log (every simulated syscall with its
-bytes, every driver action) must be identical.  Exit 0 = deterministic, 2 = divergence (infra failure)."""
+bytes, every driver action) must be identical.  One of the repetitions of every case is a replay (dump of plan + choice tape, then -sim.replay): replaying must reproduce the
+run exactly.  Exit 0 = deterministic, 2 = divergence (infra failure)."""
 import concurrent.futures as cf, json, os, subprocess, sys, tempfile, shutil
 
 VERIF = os.path.dirname(os.path.dirname(os.path.abspath(__file__)))
@@ -41,6 +42,11 @@ def main():
         a = [binp, "-test.run", "^TestSim$", "-test.timeout", "0", "-sim.seed", str(seed), "-sim.profile", prof, "-sim.out", wd + "/r.json"]
         if var:
             a += ["-sim.variant", var]
+        if r == 1:
+            # one of the repetitions is a replay: dump the run of the seed (plan + choice tape), then execute the replay file;
+            # it must give the same event log and the same violations as the seed itself
+            subprocess.run(a + ["-sim.dump", wd + "/replay.json", "-sim.out", wd + "/first.json"], cwd=wd, env=env, capture_output=True)
+            a = [binp, "-test.run", "^TestSim$", "-test.timeout", "0", "-sim.replay", wd + "/replay.json", "-sim.out", wd + "/r.json"]
         p = subprocess.run(a, cwd=wd, env=env, capture_output=True, text=True, errors="replace")
         h = None
         if os.path.exists(wd + "/r.json"):
